@@ -51,7 +51,7 @@ def self_assigns(body):
 
 def g1(prog, rep):
     body = prog.main_body(BF + "SizedBundle::try_push")
-    cm = rel(body, "Gt", r".", r"^self\.max_size$")
+    cm = rel(body, "Gt", r".", r"^self\.max_size$", pure=False)
     rep.floor("G1", len(cm), 2, "size comparisons in SizedBundle::try_push")
     push = [c for c in body.calls if c.matches(r"alloc::vec::Vec::<T, A>::push$")
             and body.root(c.args[0]) == "self.buffer"]
